@@ -110,6 +110,11 @@ type simpleRequest struct {
 	// because of a MOVED or ASK response.
 	redirections int
 
+	// keyless indicates the request is one of the proxy's own which has no
+	// key (READONLY, CLUSTER NODES). No node redirects such a request, a
+	// MOVED or ASK response to it is passed through instead of followed.
+	keyless bool
+
 	// asking indicates the request must be sent right after an ASKING
 	// command, it's set when the request is redirected by an ASK response.
 	asking bool
